@@ -214,6 +214,13 @@ impl SymbolTable {
     })
   }
 
+  /// Splits a specialized type name like `Foo<int>` into the unspecialized `Foo` and `[int]`.
+  pub fn split_type_name_suffix(&mut self, id: TypeNameId) -> (TypeNameId, Vec<Type>) {
+    let TypeName { module_reference, type_name, suffix, sub_type_tag: _ } =
+      self.type_name_lookup_table.get(&id).unwrap().as_ref().clone();
+    (self.create_simple_type_name(module_reference, type_name), suffix)
+  }
+
   /// If the given TypeNameId is a subtype (has a sub_type_tag), returns the parent TypeNameId.
   /// Otherwise returns None.
   pub fn get_parent_type_if_subtype(&self, id: TypeNameId) -> Option<TypeNameId> {
